@@ -1,4 +1,5 @@
 import ClusterVerif.Lemmas.C06S
+import ClusterVerif.Lemmas.C06G
 import ClusterVerif.Model.C06O
 import ClusterVerif.Spec.C06O
 
@@ -769,5 +770,124 @@ theorem one_member_cid (self st : Nat) (pin : Pin) (fol : Bool) (h : pin.everywh
 
 example : globalCid { self := 3, follower := false, members := [3], pin := some (Pin.mk false 1 1 [3] (-1)), replies := [(3, Reply.ok 16)] }
     = [(3, 16)] := by decide
+
+/-! ### Round 8 final: the LISTING (`Cluster.StatusAll`) for ARBITRARY member lists, reply tables and errors -/
+
+/-- EVERY cell of the listing, exactly: for a listed CID and a peer of the member list (the node itself in
+follower mode) — unreachable: cluster_error; answered: the status it reported LAST for the CID, absent when it
+reported none; refused (authorization error): absent; any peer outside the list: absent. Induction over the
+member list, each reply and the unreachable members; members may repeat, replies may list a CID many times. -/
+theorem gs_cell (i : GSliceInput) : ∀ e ∈ globalSlice i, ∀ p,
+    lookup e.2 p =
+      if p ∈ (if i.follower then [i.self] else i.members) then
+        (match replyOf i.replies p with
+         | .ok l => lastFor l e.1
+         | .err => some stClusterError
+         | .auth => none)
+      else none := globalSlice_cell i
+
+example : globalSlice ⟨0, false, [0, 1, 2, 1], [], [(0, .ok [(5, 16), (7, 4), (5, 4)]), (1, .err), (2, .auth)]⟩
+    = [(5, [(0, 4), (1, 2)]), (7, [(0, 4), (1, 2)])] := by decide
+
+/-- the three per-CID clauses of the listing that `gc_holds` gives for `Cluster.Status(cid)`, for EVERY input of
+a non-follower: `g_own_report` and `g_allocated` always hold; `g_others_remote` holds exactly when every
+non-allocated member (CID of the pinset, not a meta pin) answered with remote or nothing, or refused — it FAILS
+as soon as such a member is unreachable (finding K04). -/
+theorem gs_holds (i : GSliceInput) (hf : i.follower = false) : ∀ e ∈ globalSlice i,
+    gsOwnReport i e.1 e.2 = true ∧ gsAllocated i e.1 e.2 = true ∧
+    (gsOthersRemote i e.1 e.2 = true ↔
+      ∀ p ∈ i.members, ∀ pin, pinOf i e.1 = some pin → pin.isMeta = false → allocatedFor i e.1 p = false →
+        match replyOf i.replies p with
+        | .ok l => lastFor l e.1 = none ∨ lastFor l e.1 = some stRemote
+        | .err => False
+        | .auth => True) := by
+  intro e he
+  have hcell : ∀ p ∈ i.members, lookup e.2 p =
+      (match replyOf i.replies p with
+       | .ok l => lastFor l e.1
+       | .err => some stClusterError
+       | .auth => none) := by
+    intro p hp
+    have h := globalSlice_cell i e he p
+    rw [hf] at h
+    simp only [Bool.false_eq_true, if_false, hp, if_true] at h
+    exact h
+  refine ⟨?_, ?_, ?_⟩
+  · unfold gsOwnReport
+    rw [List.all_eq_true]
+    intro p hp
+    have hc := hcell p hp
+    cases hr : replyOf i.replies p with
+    | ok l =>
+      rw [hr] at hc
+      simp only at hc ⊢
+      rw [hc]
+      cases hl : lastFor l e.1 with
+      | some st => exact lastFor_some hl
+      | none => simp only; rw [lastFor_none hl]; rfl
+    | err => rfl
+    | auth => rfl
+  · unfold gsAllocated
+    rw [List.all_eq_true]
+    intro p hp
+    have hc := hcell p hp
+    cases hr : replyOf i.replies p with
+    | ok l => rfl
+    | err => rw [hr] at hc; simp only at hc ⊢; rw [hc]; simp
+    | auth => rfl
+  · unfold gsOthersRemote
+    rw [List.all_eq_true]
+    constructor
+    · intro h p hp pin hpin hmeta halloc
+      have h1 := h p hp
+      have hc := hcell p hp
+      rw [hpin] at h1
+      simp only [hmeta, halloc, Bool.false_or] at h1
+      cases hr : replyOf i.replies p with
+      | ok l =>
+        rw [hr] at hc; simp only at hc ⊢
+        rw [hc] at h1
+        simpa using h1
+      | err =>
+        rw [hr] at hc; simp only at hc ⊢
+        rw [hc] at h1
+        revert h1; decide
+      | auth => trivial
+    · intro h p hp
+      cases hpin : pinOf i e.1 with
+      | none => rfl
+      | some pin =>
+        simp only
+        cases hmeta : pin.isMeta with
+        | true => rfl
+        | false =>
+          cases halloc : allocatedFor i e.1 p with
+          | true => rfl
+          | false =>
+            have h1 := h p hp pin hpin hmeta halloc
+            have hc := hcell p hp
+            cases hr : replyOf i.replies p with
+            | ok l =>
+              rw [hr] at hc h1; simp only at hc h1
+              rw [hc]
+              rcases h1 with h1 | h1 <;> rw [h1] <;> rfl
+            | err => rw [hr] at h1; exact h1.elim
+            | auth => rw [hr] at hc; simp only at hc; rw [hc]; rfl
+
+/-- hypotheses met non-trivially: 3 members, one unreachable and allocated, one answering twice for the CID -/
+example : (globalSlice ⟨0, false, [0, 1, 2], [(5, ⟨false, 1, 2, [0, 1], -1⟩)],
+      [(0, .ok [(5, 4), (5, 16)]), (1, .err), (2, .ok [(5, 256)])]⟩).all
+    (fun e => gsOwnReport ⟨0, false, [0, 1, 2], [(5, ⟨false, 1, 2, [0, 1], -1⟩)],
+      [(0, .ok [(5, 4), (5, 16)]), (1, .err), (2, .ok [(5, 256)])]⟩ e.1 e.2 &&
+      gsOthersRemote ⟨0, false, [0, 1, 2], [(5, ⟨false, 1, 2, [0, 1], -1⟩)],
+      [(0, .ok [(5, 4), (5, 16)]), (1, .err), (2, .ok [(5, 256)])]⟩ e.1 e.2) = true := by decide
+
+/-- refutation (K04): "others remote" is NOT a theorem of the listing — a non-allocated member that cannot be
+reached is listed as cluster_error, where `Cluster.Status(cid)` (`gc_holds`) says remote. -/
+theorem gs_others_remote_not_all :
+    ¬ ∀ (i : GSliceInput), i.follower = false → ∀ e ∈ globalSlice i, gsOthersRemote i e.1 e.2 = true := by
+  intro h
+  have := h ⟨0, false, [0, 8], [(0, ⟨false, 1, 2, [0], -1⟩)], [(0, .ok [(0, 16)])]⟩ rfl (0, [(0, 16), (8, 2)]) (by decide)
+  revert this; decide
 
 end CV.C06
